@@ -376,16 +376,24 @@ Returns:
 
     vals = [filled(f.variables[f.INDEPENDENT_VARIABLE][:]).ravel()]
     keys = [f.INDEPENDENT_VARIABLE]
+    masks = [np.zeros(vals[0].shape, dtype='bool')]
+    codes = [None]
     for key, var in f.variables.items():
         if key == f.INDEPENDENT_VARIABLE:
             continue
         keys.append(key)
         vals.append(filled(var[:]).ravel())
+        masks.append(np.ma.getmaskarray(var[:]).ravel())
+        codes.append(str(getattr(var, 'missing_value', -999)))
 
     print(delim.join(keys), file=outfile)
-    for row in array(vals).T:
-        row.tofile(outfile, format='%.6e', sep=delim)
-        print('', file=outfile)
+    # missing data are written as the code declared on line 12, exactly as
+    # it is spelled there; other values with seven significant digits
+    for row, mrow in zip(array(vals).T, array(masks).T):
+        print(delim.join([
+            codes[ci] if mrow[ci] else '%.6e' % val
+            for ci, val in enumerate(row)
+        ]), file=outfile)
 
     return outfile
 
